@@ -18,6 +18,7 @@ import (
 	"math/rand/v2"
 	"net"
 	"net/netip"
+	"runtime"
 	"sync"
 	"testing"
 	"time"
@@ -129,7 +130,9 @@ func (c *vfChunkConn) Close() error {
 
 	return nil
 }
-func (c *vfChunkConn) LocalAddr() net.Addr { return &net.TCPAddr{IP: net.IPv4(10, 0, 0, 1), Port: 7000} }
+func (c *vfChunkConn) LocalAddr() net.Addr {
+	return &net.TCPAddr{IP: net.IPv4(10, 0, 0, 1), Port: 7000}
+}
 func (c *vfChunkConn) RemoteAddr() net.Addr {
 	if c.remote != nil {
 		return c.remote
@@ -505,6 +508,12 @@ func TestVerifC14(t *testing.T) { //nolint:cyclop,maintidx
 			r.distinct(fmt.Sprintf("tcpconn/%s/n%d/max%d", kind, len(pkts)/4, vfC14MaxBucket(lens)))
 		}
 
+		// (F) concurrent senders on one TCP connection: frames must not interleave on the wire
+		nF := e.n(400, 20000)
+		for i := 0; i < nF; i++ {
+			vfC14Concurrent(e, r, i)
+		}
+
 		// (E) activeTCPConn and tcpPacketConn.WriteTo over real loopback TCP (kernel decides the segmentation)
 		nE := e.n(40, 1200)
 		for i := 0; i < nE; i++ {
@@ -656,4 +665,97 @@ func vfC14Loopback(e *vfEnv, r *vfResult, idx int) {
 	r.eval(1)
 	r.count("loopback_sessions", 1)
 	r.distinct(fmt.Sprintf("loopback/%d/%d", len(toClient)/4, len(toServer)/4))
+}
+
+// vfYieldConn yields the processor after every Write so that a second writer can run
+// between two Write calls of the first one (what a real socket under load allows).
+type vfYieldConn struct {
+	vfChunkConn
+	writes int
+}
+
+func (c *vfYieldConn) Write(p []byte) (int, error) {
+	n, err := c.vfChunkConn.Write(p)
+	c.mu.Lock()
+	c.writes++
+	c.mu.Unlock()
+	runtime.Gosched()
+	time.Sleep(time.Microsecond)
+
+	return n, err
+}
+
+func vfC14Concurrent(e *vfEnv, r *vfResult, idx int) {
+	rng := e.rng(idx, "concurrent")
+	tp := newTCPPacketConn(tcpPacketParams{ReadBuffer: 4, LocalAddr: &net.TCPAddr{IP: net.IPv4(10, 0, 0, 1), Port: 7000}, Logger: vfQuietLogger().NewLogger("ice")})
+	cc := &vfYieldConn{vfChunkConn: vfChunkConn{blockEOF: true, eofCh: make(chan struct{})}}
+	if err := tp.AddConn(cc, nil); err != nil {
+		r.violation("harness:addconn", err.Error(), nil)
+
+		return
+	}
+	writers := 2 + rng.IntN(4)
+	per := 1 + rng.IntN(8)
+	want := map[string]int{}
+	var wg sync.WaitGroup
+	var mu sync.Mutex
+	var werrs []string
+	for w := 0; w < writers; w++ {
+		pk := make([][]byte, per)
+		for k := range pk {
+			l := 4 + rng.IntN(300)
+			b := make([]byte, l)
+			for j := range b {
+				b[j] = byte(w*16 + k)
+			}
+			binary.BigEndian.PutUint32(b, uint32(w)<<16|uint32(k)) //nolint:gosec
+			pk[k] = b
+			want[string(b)]++
+		}
+		wg.Add(1)
+		go func() {
+			defer wg.Done()
+			for _, b := range pk {
+				if _, err := tp.WriteTo(b, cc.RemoteAddr()); err != nil {
+					mu.Lock()
+					werrs = append(werrs, err.Error())
+					mu.Unlock()
+				}
+			}
+		}()
+	}
+	wg.Wait()
+	cc.mu.Lock()
+	stream := append([]byte{}, cc.written.Bytes()...)
+	cc.mu.Unlock()
+	_ = tp.Close()
+	r.eval(1)
+	r.distinct(fmt.Sprintf("concurrent/w%d/p%d", writers, per))
+	if len(werrs) > 0 {
+		r.violation("concurrent-write-error", fmt.Sprintf("WriteTo failed under concurrency: %v", werrs), map[string]any{"idx": idx})
+
+		return
+	}
+	// deframe with the reference and compare multisets
+	got := map[string]int{}
+	pos, n := 0, 0
+	for pos+2 <= len(stream) {
+		l := int(binary.BigEndian.Uint16(stream[pos:]))
+		if pos+2+l > len(stream) {
+			break
+		}
+		got[string(stream[pos+2:pos+2+l])]++
+		pos += 2 + l
+		n++
+	}
+	bad := pos != len(stream) || n != writers*per
+	for k, v := range want {
+		if got[k] != v {
+			bad = true
+		}
+	}
+	if bad {
+		r.violation("concurrent-frames-interleaved", fmt.Sprintf("%d writers x %d packets on one TCP connection: the wire deframes into %d packets with %d trailing bytes; sent multiset not reproduced", writers, per, n, len(stream)-pos),
+			map[string]any{"idx": idx, "writers": writers, "per_writer": per})
+	}
 }
